@@ -834,7 +834,7 @@ def run_size_tight(seed, n, max_count=40, exhaustive=False):
         for _ in range(n):
             m = rng.choice(JCD + ('EDIT_DISTANCE',))
             if m == 'EDIT_DISTANCE':
-                t = rng.choice([0, 1, 2, 3, 5])
+                t = rng.choice([0, 1, 2, 3, 5, 1.5, 0.5, 1.99996, 0.99996, 2.999951, 2.0, 3.0000001])
             else:
                 t = gens.threshold(rng)[1]
             a = rng.randint(1, max_count)
@@ -870,8 +870,13 @@ def run_size_tight(seed, n, max_count=40, exhaustive=False):
         res['distribution']['measure'][m] = res['distribution']['measure'].get(m, 0) + 1
         res['distribution']['dropped'][str(dropped)] = res['distribution']['dropped'].get(str(dropped), 0) + 1
         bb = 'true' if dropped else 'false'
-        cases.append('andb (size_tight_spec %s %s %d %d %s) (Bool.eqb (size_filter_pair {| fm := %s; ft := %s; fq := 2 |} false %d %d) %s)'
-                     % (C.coq_str(m), C.pyval_lit(t), a, b, bb, C.coq_str(m), C.pyval_lit(t), a, b, bb))
+        if m == 'EDIT_DISTANCE' and isinstance(t, float):
+            # float threshold: dropped iff |a - b| > t, compared exactly (theorem F4_ED_float)
+            cases.append('andb (Bool.eqb %s (py_truth (py_gt (PInt (Z.abs (%d - %d))) %s))) (Bool.eqb (size_filter_pair {| fm := %s; ft := %s; fq := 2 |} false %d %d) %s)'
+                         % (bb, a, b, C.pyval_lit(t), C.coq_str(m), C.pyval_lit(t), a, b, bb))
+        else:
+            cases.append('andb (size_tight_spec %s %s %d %d %s) (Bool.eqb (size_filter_pair {| fm := %s; ft := %s; fq := 2 |} false %d %d) %s)'
+                         % (C.coq_str(m), C.pyval_lit(t), a, b, bb, C.coq_str(m), C.pyval_lit(t), a, b, bb))
         info.append({'measure': m, 't': repr(t), 't_hex': t.hex() if isinstance(t, float) else t, 'a': a, 'b': b,
                      'dropped': dropped})
     res['evaluations'] = len(cases)
